@@ -43,7 +43,7 @@ def run(prog, rep):
     rep.rule('R4', 'add_graph stamps and replaces; extract_graph copies node and edge data', floor=4)
     rep.rule('R5', 'JSON writer/reader are a matched pair', floor=1)
     rep.rule('R6', 'identity properties are stamped at creation', floor=4)
-    rep.rule('R7', 'sentinel values the library writes into JSON properties are skipped by graph validation', floor=1)   # (2 until the '' written by unmerge_adm was replaced by an unset, /repo fix for C14)
+    rep.rule('R7', 'sentinel values the library writes into JSON properties are skipped by graph validation', floor=2)   # (empty text always counts; was 2 until the '' written by unmerge_adm was replaced by an unset, /repo fix for C14)
 
     nxi = prog.cls(NXI)
     imod = nxi.module
@@ -615,6 +615,15 @@ def run(prog, rep):
             if verdict:
                 rep.violation('R7', loc(abcpg.module, vj0), 'ABCPropertyGraph._validate_json_property', f'sentinel {value!r} rejected',
                               f'{value!r} is how an unset property reads back from Neo4j; validation must skip it')
+    # the empty string: the property quantifies over raw property graphs whose values include empty strings, every
+    # decoder of the library reads '' as "nothing set", and GraphML / node-link carry it unchanged - validation must skip
+    # it like the other "nothing here" values, whether or not some library path currently writes it
+    verdict = rejected('')
+    rep.instance('R7', f"empty text in a JSON-typed property: rejected by validation: {verdict}")
+    if verdict:
+        rep.violation('R7', loc(abcpg.module, vj0), 'ABCPropertyGraph._validate_json_property', "empty text rejected",
+                      "an empty string in a JSON-typed property (what the attribute codecs produce for a value with nothing set) is handed to "
+                      "json.loads and reported as unparseable: a graph the library serialised and imported without loss fails validate_graph()")
 
     # ---- R6 ----
     an = nxpg.methods.get('add_node')
